@@ -460,6 +460,38 @@ impl From<ExecutionError> for ResolveResult {
 
 pub type ResolveResult = Result<Value, ExecutionError>;
 
+/// The two-operand operators [`Value::resolve`] evaluates itself. Any other call with two
+/// arguments is a function call: its arguments are evaluated by the function's extractors and
+/// must not be evaluated here as well.
+fn is_binary_operator(name: &str) -> bool {
+    matches!(
+        name,
+        operators::ADD
+            | operators::SUBSTRACT
+            | operators::DIVIDE
+            | operators::MULTIPLY
+            | operators::MODULO
+            | operators::EQUALS
+            | operators::NOT_EQUALS
+            | operators::LESS
+            | operators::LESS_EQUALS
+            | operators::GREATER
+            | operators::GREATER_EQUALS
+            | operators::IN
+            | operators::LOGICAL_OR
+            | operators::LOGICAL_AND
+            | operators::INDEX
+    )
+}
+
+/// The one-operand operators [`Value::resolve`] evaluates itself, see [`is_binary_operator`].
+fn is_unary_operator(name: &str) -> bool {
+    matches!(
+        name,
+        operators::LOGICAL_NOT | operators::NEGATE | operators::NOT_STRICTLY_FALSE
+    )
+}
+
 impl From<Value> for ResolveResult {
     fn from(value: Value) -> Self {
         Ok(value)
@@ -488,7 +520,7 @@ impl Value {
                         Value::resolve(&call.args[2], ctx)
                     };
                 }
-                if call.args.len() == 2 {
+                if call.args.len() == 2 && is_binary_operator(&call.func_name) {
                     let left = Value::resolve(&call.args[0], ctx)?;
                     match call.func_name.as_str() {
                         operators::ADD => return left + Value::resolve(&call.args[1], ctx)?,
@@ -623,7 +655,7 @@ impl Value {
                         _ => (),
                     }
                 }
-                if call.args.len() == 1 {
+                if call.args.len() == 1 && is_unary_operator(&call.func_name) {
                     let expr = Value::resolve(&call.args[0], ctx)?;
                     match call.func_name.as_str() {
                         operators::LOGICAL_NOT => return Ok(Value::Bool(!expr.to_bool())),
